@@ -33,8 +33,8 @@ type richT struct {
 	H   [32]byte
 	L   []uint16
 	In  innerT
-	P   *innerT `rlp:"nil"`
-	PS  *uint32 `rlp:"nilString"`
+	P   *innerT  `rlp:"nil"`
+	PS  *uint32  `rlp:"nilString"`
 	PL  *[2]byte `rlp:"nilList"`
 	Big *big.Int
 	BV  big.Int
@@ -64,6 +64,15 @@ type rawS struct {
 	K uint8
 	V krlp.RawValue
 	W []krlp.RawValue
+}
+
+type privT struct { // unexported and ignored fields between exported ones
+	A uint32
+	b uint32
+	C []byte
+	d []byte  `rlp:"-"`
+	E []uint8 `rlp:"-"`
+	F bool
 }
 
 type docNilT struct { // doc.go, "Struct Tags"
@@ -96,7 +105,7 @@ var staticTargets = func() []*target {
 	var out []*target
 	for _, x := range []interface{}{(*interface{})(nil), []byte(nil), "", uint8(0), uint16(0), uint32(0), uint64(0), uint(0), false,
 		big.Int{}, [0]byte{}, [1]byte{}, [2]byte{}, [32]byte{}, []uint64(nil), [][]byte(nil), []interface{}(nil), [2]uint16{},
-		krlp.RawValue(nil), richT{}, optT{}, recT{}, rawS{}, docNilT{}, innerT{}, []innerT(nil), []*innerT(nil), []string(nil), []bool(nil), [][]uint32(nil)} {
+		krlp.RawValue(nil), richT{}, optT{}, recT{}, rawS{}, docNilT{}, innerT{}, []innerT(nil), []*innerT(nil), []string(nil), []bool(nil), [][]uint32(nil), privT{}, []privT(nil)} {
 		out = append(out, newStaticTarget(x))
 	}
 	return out
@@ -322,6 +331,47 @@ func checkRawHelpers(t ev.TB, b []byte) {
 	}
 }
 
+// checkStreamScalars: the typed Stream readers on the first value of b against the strict header reader.
+func checkStreamScalars(t ev.TB, b []byte) {
+	ct := func() string { return fmt.Sprintf("stream scalars input=%x", b) }
+	h, ok := next(b)
+	var u uint64
+	var bv bool
+	var raw []byte
+	var eU, eB, eR, eRB error
+	n := 1
+	if ok {
+		n = len(h.payload)
+	}
+	buf := make([]byte, n)
+	ev.Guard(t, ct, func() {
+		u, eU = krlp.NewStream(bytes.NewReader(b), 0).Uint64()
+		bv, eB = krlp.NewStream(bytes.NewReader(b), 0).Bool()
+		raw, eR = krlp.NewStream(bytes.NewReader(b), 0).Raw()
+		eRB = krlp.NewStream(bytes.NewReader(b), 0).ReadBytes(buf)
+	})
+	wu, wok := uint64(0), false
+	if ok {
+		wu, wok = decUint(h, 64)
+	}
+	if (eU == nil) != wok || (wok && u != wu) {
+		ev.Violation(t, "stream.uint64", ct(), "Stream.Uint64 = %d, %v; strict reader: ok=%v value %d", u, eU, wok, wu)
+	}
+	wb := wok && wu <= 1 && len(h.payload) <= 1
+	if (eB == nil) != wb || (wb && bv != (wu == 1)) {
+		ev.Violation(t, "stream.bool", ct(), "Stream.Bool = %v, %v; strict reader: ok=%v value %d", bv, eB, wb, wu)
+	}
+	if !(ok && h.wrapped) { // Raw on a wrapped single byte: unspecified (see the model)
+		if (eR == nil) != ok || (ok && !bytes.Equal(raw, h.raw)) {
+			ev.Violation(t, "stream.raw", ct(), "Stream.Raw = %x, %v; strict reader: ok=%v %x", raw, eR, ok, h.raw)
+		}
+	}
+	wrb := ok && h.kind != hList && !h.wrapped
+	if (eRB == nil) != wrb || (wrb && !bytes.Equal(buf, h.payload)) {
+		ev.Violation(t, "stream.readbytes", ct(), "Stream.ReadBytes(len %d) = %x, %v; strict reader: ok=%v %x", n, buf, eRB, wrb, h.payload)
+	}
+}
+
 // ---------------------------------------------------------------- EncoderBuffer
 
 func ebWrite(w krlp.EncoderBuffer, v *mval) {
@@ -359,7 +409,9 @@ func checkEncoderBuffer(t *rapid.T, vg *vgen) {
 		payload = append(payload, 0x80)
 	}
 	want := c.emit(true, false, payload)
-	ct := func() string { return fmt.Sprintf("EncoderBuffer list(%s, %d, %s, %v)", renderS(ifaceDesc, v), u, bi, flag) }
+	ct := func() string {
+		return fmt.Sprintf("EncoderBuffer list(%s, %d, %s, %v)", renderS(ifaceDesc, v), u, bi, flag)
+	}
 	var toBytes, appended, flushed []byte
 	var ferr error
 	ev.Guard(t, ct, func() {
@@ -416,7 +468,7 @@ func TestByteStrings(t *testing.T) {
 			ev.Violation(t, "encode.differs-from-reference-encoder", ct(), "go-kardia %x (err %v), reference encoder %x", enc, err, ref)
 		}
 		if lossless(d, mv, false) {
-			got, derr := kDecode(t, ct, d.rtype(flK), ref)
+			got, derr := kDecode(t, ct, tg, ref)
 			bad := ""
 			if derr != nil {
 				ev.Violation(t, "roundtrip.own-encoding-rejected", ct(), "DecodeBytes(EncodeToBytes(v)) = %v for %x", derr, ref)
@@ -442,6 +494,7 @@ func TestByteStrings(t *testing.T) {
 			}
 		}
 		checkRawHelpers(t, in.b)
+		checkStreamScalars(t, in.b)
 		checkStreams(t, in.b, uint64(rapid.SampledFrom([]int{1, 3, 100, 4096, 70000}).Draw(t, "extralimit")))
 		if rapid.IntRange(0, 3).Draw(t, "eb") == 0 {
 			checkEncoderBuffer(t, vg)
